@@ -223,6 +223,73 @@ pub fn run(tier: &str, seed: u64) -> Report {
     }
     let _ = Module::dependencies;
   }
+  fast_check_part(&mut report, &mut rng, if tier == "thorough" { 1500 } else { 150 });
   batch.finish(&mut report, "C18");
   report
+}
+
+
+/// graphs that carry fast-check data (generated registry packages, fast check run): a segment at a
+/// package module must still contain every dependency of every module it contains, not only those
+/// of the fast-check (public API) view
+fn fast_check_part(report: &mut Report, rng: &mut Rng, n: usize) {
+  use crate::fc::*;
+  for i in 0..n {
+    let mut pr = rng.fork();
+    let pkg = crate::c09::gen_pkg(&mut pr, i);
+    let w = crate::c09::world_of(&pkg);
+    let run = run_fast_check(&w, None, false);
+    if !run.graph_errors.is_empty() {
+      continue;
+    }
+    let g = &run.graph;
+    report.evaluations += 1;
+    let with_fc = run.slots.values().filter(|s| matches!(s, FcSlot::Module { .. })).count();
+    let urls: Vec<ModuleSpecifier> = run.slots.keys().filter_map(|u| ModuleSpecifier::parse(u).ok()).collect();
+    for root in &urls {
+      let roots = vec![root.clone()];
+      let seg = g.segment(&roots);
+      let desc = json!({"fast_check_world": w.describe(), "segment_roots": [root.as_str()]});
+      let mut pruned_deps = 0;
+      for m in seg.modules() {
+        // what the original says about this module's dependencies, full view
+        let Some(orig) = g.get(m.specifier()) else {
+          report.fail("oracle", "segment-entry-not-in-original", m.specifier().to_string(), desc.clone());
+          continue;
+        };
+        if let (Some(js), Some(ojs)) = (m.js(), orig.js()) {
+          if js.dependencies.len() != ojs.dependencies.len() {
+            report.fail("oracle", "segment-module-lost-dependencies", m.specifier().to_string(), desc.clone());
+          }
+          if let Some(deno_graph::FastCheckTypeModuleSlot::Module(fm)) = &ojs.fast_check {
+            pruned_deps += ojs.dependencies.len().saturating_sub(fm.dependencies.len());
+          }
+        }
+        for (text, _dep) in orig.dependencies() {
+          for prefer in [false, true] {
+            let a = g.resolve_dependency(text, m.specifier(), prefer).cloned();
+            let b = seg.resolve_dependency(text, m.specifier(), prefer).cloned();
+            if a != b {
+              report.fail(
+                "oracle",
+                "segment-resolves-dependency-differently",
+                format!("graph with fast-check data: {} dependency {:?} (prefer_types={}): original {:?}, segment {:?}", m.specifier(), text, prefer, a.map(|u| u.to_string()), b.map(|u| u.to_string())),
+                desc.clone(),
+              );
+            }
+          }
+        }
+      }
+      for fd in [false, true] {
+        let opts = || deno_graph::WalkOptions { check_js: deno_graph::CheckJsOption::True, follow_dynamic: fd, kind: g.graph_kind(), prefer_fast_check_graph: false };
+        let a: BTreeSet<String> = g.walk(roots.iter(), opts()).map(|(s, _)| s.to_string()).collect();
+        let b: BTreeSet<String> = seg.walk(roots.iter(), opts()).map(|(s, _)| s.to_string()).collect();
+        if a != b {
+          report.fail("oracle", "segment-walk-differs", format!("graph with fast-check data, follow_dynamic={}: original visits {:?}, segment {:?}", fd, a, b), desc.clone());
+        }
+      }
+      report.nontrivial.insert(format!("fast-check/emitted{}/pruned-deps{}/entries{}", with_fc.min(5), pruned_deps.min(4), seg.modules().count().min(6)));
+      report.count(&format!("fast-check-graph:segments:dependencies-pruned-from-public-view:{}", pruned_deps.min(4)));
+    }
+  }
 }
